@@ -90,12 +90,12 @@ def conflict(pc1, pc2):
     return False
 
 
-def run_instance(mod, nodes, edges, mode, tier, seed, deadline=None):
+def run_instance(mod, nodes, edges, mode, tier, seed, deadline=None, built=False):
     """returns dict(stats..., violations=[{what, scenario, scenario2}])"""
     entries = []
     stats = {'states': 0, 'transitions': 0, 'events': 0, 'finals': 0, 'orders': 0, 'pairs': 0, 'pairs_solver': 0, 'capped': False}
     for (n2, e2) in perms_for(nodes, edges, tier, seed):
-        uni = H.heval_universe(mod, n2, e2, mode)
+        uni = H.make_universe(mod, n2, e2, mode, built=built)
         oc = OutcomeCollector()
         ex = X.Explorer(uni, [oc], fail_actions=False, abort_actions=False)
         ex.run(deadline=deadline)
